@@ -104,6 +104,29 @@ void random_bytes(void *out, size_t len)
     gcry_randomize(out, len, GCRY_STRONG_RANDOM);
 }
 
+/*
+ * VNC passwords are used as DES keys and are chosen by users.  libgcrypt refuses the 64 weak
+ * and semi-weak DES keys (the empty password is one of them) unless it is told to allow them,
+ * and then still reports GPG_ERR_WEAK_KEY although the key has been set.
+ * Returns 1 if the key is set.
+ */
+static int rfbdes_setkey(gcry_cipher_hd_t des, const unsigned char mungedkey[8])
+{
+    gcry_error_t error;
+
+#if GCRYPT_VERSION_NUMBER >= 0x010900
+    error = gcry_cipher_ctl(des, GCRYCTL_SET_ALLOW_WEAK_KEY, NULL, 1);
+    if (gcry_err_code(error) != GPG_ERR_NO_ERROR)
+	return 0;
+    error = gcry_cipher_setkey(des, mungedkey, 8);
+    return gcry_err_code(error) == GPG_ERR_NO_ERROR
+	|| gcry_err_code(error) == GPG_ERR_WEAK_KEY;
+#else
+    error = gcry_cipher_setkey(des, mungedkey, 8);
+    return gcry_err_code(error) == GPG_ERR_NO_ERROR;
+#endif
+}
+
 int encrypt_rfbdes(void *out, int *out_len, const unsigned char key[8], const void *in, const size_t in_len)
 {
     int result = 0;
@@ -119,8 +142,7 @@ int encrypt_rfbdes(void *out, int *out_len, const unsigned char key[8], const vo
     if (gcry_err_code(error) != GPG_ERR_NO_ERROR)
 	goto out;
 
-    error = gcry_cipher_setkey(des, mungedkey, 8);
-    if (gcry_err_code(error) != GPG_ERR_NO_ERROR)
+    if (!rfbdes_setkey(des, mungedkey))
 	goto out;
 
     error = gcry_cipher_encrypt(des, out, in_len, in, in_len);
@@ -151,8 +173,7 @@ int decrypt_rfbdes(void *out, int *out_len, const unsigned char key[8], const vo
     if (gcry_err_code(error) != GPG_ERR_NO_ERROR)
 	goto out;
 
-    error = gcry_cipher_setkey(des, mungedkey, 8);
-    if (gcry_err_code(error) != GPG_ERR_NO_ERROR)
+    if (!rfbdes_setkey(des, mungedkey))
 	goto out;
 
     error = gcry_cipher_decrypt(des, out, in_len, in, in_len);
